@@ -411,3 +411,146 @@ Definition count_entryb (e : gentry) : bool :=
   match ge_ip_level e, ge_ep_level e with None, None => true | _, _ => false end.
 Definition count_phaseb (A : alookup) : bool :=
   forallb (fun ke => count_entryb (snd ke)) (al_grammar A) && forallb is_count (al_ln_lookup A).
+
+(* ------------------------------------------------------------------ *)
+(* 5. AlphabetGenerator                                                  *)
+
+Record agen := mk_agen {
+  ag_alphabet_size : Z;
+  ag_ngram : Z;
+  ag_dictionary : list (N * Z)        (* letter -> times seen, dict order *)
+}.
+Definition ag_set_alphabet_size (G : agen) (v : Z) : agen := mk_agen v (ag_ngram G) (ag_dictionary G).
+Definition ag_set_ngram (G : agen) (v : Z) : agen := mk_agen (ag_alphabet_size G) v (ag_dictionary G).
+Definition ag_set_dictionary (G : agen) (v : list (N * Z)) : agen := mk_agen (ag_alphabet_size G) (ag_ngram G) v.
+Definition ag_blank : agen := mk_agen 0 0 [].
+
+(* sorted(items, key = value, reverse = True): Python's sort is stable and reverse=True
+   keeps the original order of equal keys: insertion from the right, an element passes
+   the ones that are strictly bigger *)
+Section MostCommon.
+Context {K V : Type} (ltb : V -> V -> bool).
+Fixpoint ins_desc_by (x : K * V) (l : list (K * V)) : list (K * V) :=
+  match l with
+  | [] => [x]
+  | y :: r => if ltb (snd x) (snd y) then y :: ins_desc_by x r else x :: l
+  end.
+Definition most_common_by (c : list (K * V)) : list (K * V) := fold_right ins_desc_by [] c.
+End MostCommon.
+
+Definition TAB_c : N := 9%N.
+
+(* process_password: passwords shorter than the n-gram size are ignored; every
+   character except TAB is tallied *)
+Definition tally_letter (d : list (N * Z)) (c : N) : list (N * Z) :=
+  if N.eqb c TAB_c then d
+  else match afind N.eqb c d with
+       | Some n => aset N.eqb c (n + 1)%Z d
+       | None => aset N.eqb c 1%Z d
+       end.
+
+Definition process_password (G : agen) (pw : ostr) : agen :=
+  if (tlen pw <? ag_ngram G)%Z then G
+  else ag_set_dictionary G (fold_left tally_letter pw (ag_dictionary G)).
+
+(* get_alphabet: the alphabet_size most frequent letters, most frequent first, ties in
+   the order of first appearance *)
+Definition get_alphabet (G : agen) : ostr :=
+  firstn (Z.to_nat (ag_alphabet_size G)) (map fst (most_common_by Z.ltb (ag_dictionary G))).
+
+(* pass 1 of run_trainer.py *)
+Definition learn_alphabet (alphabet_size ngram : Z) (pws : list ostr) : ostr :=
+  get_alphabet (fold_left process_password pws (mk_agen alphabet_size ngram [])).
+
+(* ------------------------------------------------------------------ *)
+(* 6. what save_omen_rules_to_disk writes                                *)
+
+Record pinfo := mk_pinfo {
+  pi_encoding : ostr;
+  pi_ngram : Z;
+  pi_alphabet : ostr
+}.
+
+(* the directory tree as a map path -> text (code points; codecs are not modelled) *)
+Definition fsys := list (ostr * ostr).
+Definition path_join (d f : ostr) : ostr := d ++ 47%N :: f.
+Definition fs_put (fs : fsys) (p : ostr) (text : ostr) : fsys := aset ostr_eqb p text fs.
+Definition fs_get (fs : fsys) (p : ostr) : option ostr := afind ostr_eqb p fs.
+
+Definition LF_c : N := 10%N.
+
+(* str(level) TAB string LF *)
+Definition level_line (e : nat * ostr) : ostr := dec_of_Z (Z.of_nat (fst e)) ++ TAB_c :: snd e ++ [LF_c].
+Definition level_text (ls : list (nat * ostr)) : ostr := flat_map level_line ls.
+(* str(level) LF *)
+Definition ln_text (ls : list nat) : ostr := flat_map (fun l => dec_of_Z (Z.of_nat l) ++ [LF_c]) ls.
+(* one letter per line *)
+Definition alphabet_text (a : ostr) : ostr := flat_map (fun c => [c; LF_c]) a.
+(* str(int) TAB str(int) LF *)
+Definition zz_line (e : Z * Z) : ostr := dec_of_Z (fst e) ++ TAB_c :: dec_of_Z (snd e) ++ [LF_c].
+Definition zz_text (ls : list (Z * Z)) : ostr := flat_map zz_line ls.
+(* str(int) TAB str(float) LF *)
+Definition zf_line (repr : float -> ostr) (e : Z * float) : ostr := dec_of_Z (fst e) ++ TAB_c :: repr (snd e) ++ [LF_c].
+Definition zf_text (repr : float -> ostr) (ls : list (Z * float)) : ostr := flat_map (zf_line repr) ls.
+
+(* the probability Counter: for (level, keyspace) in omen_keyspace.items(), skipping
+   keyspace 0: (omen_levels_count[level] / num_valid_passwords) / keyspace *)
+Definition zcount (c : list (Z * Z)) (k : Z) : Z :=
+  match afind Z.eqb k c with Some v => v | None => 0%Z end.
+
+Definition prob_counter (keyspace levels_count : list (Z * Z)) (nvalid : Z) : tres (list (Z * float)) :=
+  tfoldM (fun acc e =>
+            if (snd e =? 0)%Z then TOk acc
+            else q <~ int_truediv (zcount levels_count (fst e)) nvalid ;;
+                 TOk (aset Z.eqb (fst e) (PrimFloat.div q (zfloat (snd e))) acc))
+         keyspace [].
+
+Definition name_of (s : list N) : ostr := s.
+Definition n_Omen : ostr := [79; 109; 101; 110]%N.
+Definition n_IP : ostr := [73; 80; 46; 108; 101; 118; 101; 108]%N.
+Definition n_EP : ostr := [69; 80; 46; 108; 101; 118; 101; 108]%N.
+Definition n_CP : ostr := [67; 80; 46; 108; 101; 118; 101; 108]%N.
+Definition n_LN : ostr := [76; 78; 46; 108; 101; 118; 101; 108]%N.
+Definition n_config : ostr := [99; 111; 110; 102; 105; 103; 46; 116; 120; 116]%N.
+Definition n_alphabet : ostr := [97; 108; 112; 104; 97; 98; 101; 116; 46; 116; 120; 116]%N.
+Definition n_keyspace : ostr := [111; 109; 101; 110; 95; 107; 101; 121; 115; 112; 97; 99; 101; 46; 116; 120; 116]%N.
+Definition n_pws_per_level : ostr :=
+  [111; 109; 101; 110; 95; 112; 119; 115; 95; 112; 101; 114; 95; 108; 101; 118; 101; 108; 46; 116; 120; 116]%N.
+Definition n_prob : ostr := [112; 99; 102; 103; 95; 111; 109; 101; 110; 95; 112; 114; 111; 98; 46; 116; 120; 116]%N.
+
+(* the files save_omen_rules_to_disk leaves in <base>/Omen when it returns True, in the
+   order it writes them, for a smoothed trainer object with table view T.  config.txt is
+   written by configparser, which is not modelled: [cfg] is what it puts there *)
+Definition written_files (repr : float -> ostr) (T : ttab) (alphabet : ostr)
+           (keyspace levels_count : list (Z * Z)) (prob : list (Z * float)) : list (ostr * ostr) :=
+  [ (n_IP, level_text (write_ip T));
+    (n_EP, level_text (write_ep T));
+    (n_CP, level_text (write_cp T));
+    (n_LN, ln_text (OmenLevel.write_ln T));
+    (n_alphabet, alphabet_text alphabet);
+    (n_keyspace, zz_text (rev (most_common_by Z.ltb keyspace)));
+    (n_pws_per_level, zz_text (most_common_by Z.ltb levels_count));
+    (n_prob, zf_text repr (most_common_by PrimFloat.ltb prob)) ].
+
+Definition put_files (dir : ostr) (files : list (ostr * ostr)) (fs : fsys) : fsys :=
+  fold_left (fun fs nf => fs_put fs (path_join dir (fst nf)) (snd nf)) files fs.
+
+(* save_omen_rules_to_disk for a smoothed object with table view T: the four level files,
+   config.txt (oracle [sc]: None = _save_config returned False), alphabet.txt, the two
+   statistics files, then the probabilities (ZeroDivisionError when num_valid_passwords
+   is 0 and some level has a keyspace) and pcfg_omen_prob.txt *)
+Definition save_rules (repr : float -> ostr) (sc : ostr -> ostr -> pinfo -> fsys -> option fsys)
+           (T : ttab) (keyspace levels_count : list (Z * Z)) (nvalid : Z) (base : ostr) (pi : pinfo)
+           (fs : fsys) : tres (bool * fsys) :=
+  let dir := path_join base n_Omen in
+  let fs1 := put_files dir [ (n_IP, level_text (write_ip T)); (n_EP, level_text (write_ep T));
+                             (n_CP, level_text (write_cp T)); (n_LN, ln_text (OmenLevel.write_ln T)) ] fs in
+  match sc dir n_config pi fs1 with
+  | None => TOk (false, fs1)
+  | Some fs2 =>
+      let fs3 := put_files dir [ (n_alphabet, alphabet_text (pi_alphabet pi));
+                                 (n_keyspace, zz_text (rev (most_common_by Z.ltb keyspace)));
+                                 (n_pws_per_level, zz_text (most_common_by Z.ltb levels_count)) ] fs2 in
+      prob <~ prob_counter keyspace levels_count nvalid ;;
+      TOk (true, put_files dir [ (n_prob, zf_text repr (most_common_by PrimFloat.ltb prob)) ] fs3)
+  end.
